@@ -6,6 +6,7 @@ import (
 	"fmt"
 	"os"
 	"runtime/debug"
+	"time"
 
 	"free5gclib/nas/security"
 
@@ -34,6 +35,7 @@ func init() {
 			return 300 * 8
 		},
 		Batch:      600,
+		Stall:      90 * time.Second,
 		Init:       c07Init,
 		Run:        runC07,
 		Exhaustive: func(string) bool { return false },
@@ -201,8 +203,17 @@ func runC07(c *fw.Case) (o fw.Outcome) {
 	}()
 	var otherKey [16]byte
 	copy(otherKey[:], rbytes(r, 16))
+	// the library's SNOW 3G needs seconds per megabyte: beyond 300 000 octets (where only the AES block counter has a
+	// boundary: 2^16 blocks = 2^20 octets) the SNOW 3G algorithms are left out; their own 16-bit boundary (2^16 keystream
+	// words = 2^18 octets) is below that. Heartbeats between the calls: a long case is not a hung one.
+	snowToo := n <= 300000
 	for alg := uint8(0); alg <= 2; alg++ {
+		if alg == 1 && !snowToo {
+			continue
+		}
+		fw.Beat()
 		want, _ := sec.NEA(alg, key[:], count, bearer, dir, msg)
+		fw.Beat()
 		got, gdmg := guarded(r, msg)
 		if err := security.NASEncrypt(alg, key, count, bearer, dir, got); err != nil {
 			o.Fail(fmt.Sprintf("nea%d-error", alg), "NASEncrypt(NEA%d) error: %v", alg, err)
@@ -231,8 +242,10 @@ func runC07(c *fw.Case) (o fw.Outcome) {
 			return
 		}
 		// involution
+		fw.Beat()
 		again := append([]byte(nil), got...)
 		security.NASEncrypt(alg, key, count, bearer, dir, again)
+		fw.Beat()
 		if !bytes.Equal(again, msg) {
 			o.Fail(fmt.Sprintf("nea%d-not-involution", alg), "NEA%d applied twice does not restore the input (len %d)", alg, n)
 			return
@@ -248,7 +261,12 @@ func runC07(c *fw.Case) (o fw.Outcome) {
 		}
 	}
 	for alg := uint8(1); alg <= 2; alg++ {
+		if alg == 1 && !snowToo {
+			continue
+		}
+		fw.Beat()
 		want, _ := sec.NIA(alg, key[:], count, bearer, dir, msg)
+		fw.Beat()
 		mview, mdmg := guarded(r, msg)
 		got, err := security.NASMacCalculate(alg, key, count, bearer, dir, mview)
 		o.Count("macs", 1)
